@@ -122,7 +122,7 @@ class Result:
 class Sub:
     def __init__(self, name, strategy, check, quick=200, thorough=5000, shards_quick=4,
                  shards_thorough=16, required=(), timeout=120.0, budget_quick=150.0,
-                 budget_thorough=2400.0, doc='', explicit=()):
+                 budget_thorough=2400.0, doc='', explicit=(), timeout_is_violation=False):
         self.name = name
         self.strategy = strategy          # zero-argument callable returning a strategy
         self.check = check
@@ -136,6 +136,7 @@ class Sub:
         self.budget_thorough = budget_thorough
         self.doc = doc
         self.explicit = tuple(explicit)   # fixed cases always run first in shard 0
+        self.timeout_is_violation = timeout_is_violation
 
 
 def jsonable(o):
@@ -247,7 +248,16 @@ def run_case(sub, case):
         with time_limit(sub.timeout):
             res = sub.check(case)
     except CaseTimeout:
-        return Result(inconclusive='timeout')
+        if not getattr(sub, 'timeout_is_violation', False):
+            return Result(inconclusive='timeout')
+        # the routine under test has no iteration cap: re-run once alone with three times the budget; only a second
+        # timeout is reported ("did not return")
+        try:
+            with time_limit(3 * sub.timeout):
+                res = sub.check(case)
+        except CaseTimeout:
+            return Result(fails=[Failure('did-not-return', 'no result within %.0f s and again within %.0f s'
+                                         % (sub.timeout, 3 * sub.timeout))], classes=('timeout',), nontrivial=True)
     except HarnessError:
         raise
     except Exception as e:
